@@ -169,6 +169,12 @@ class Loop:
 
     def _run_coroutine(self, target: Coroutine, signal: BaseException = None):
         r"""event loop kernel, processing a single coroutine"""
+        if getattr(target, 'cr_frame', True) is None:
+            # The activity has ended already: a wake-up left behind for it is void.
+            # This happens when it was closed while suspended in an async generator
+            # that is still referenced (say, from a traceback): Python unwinds such
+            # a generator, and thereby revokes the wake-up, only when it is collected.
+            return
         try:
             if signal is not None:
                 reply = target.throw(signal)
